@@ -7,6 +7,25 @@ SEEDED = "/verif/seeded"
 
 # seeded change -> what happened the first time and what was strengthened
 HISTORY = {
+    "C04-25": "missed by C04 at first (its messages never had cleared option numbers): a quarter of the messages now carry option numbers that were added and cleared again",
+    "C05-24": "missed at first (set_type was only tried from three fixed previous states with the default code): it now runs from every previous type x code {0.00, 0.01, 2.05, 0xFF} x token length {0, 3, 8}",
+    "C05-25": "missed at first (the content-format id was only read through the conversion and from a bare message): every 16-bit id is now also read through Packet::get_content_format in six message contexts (codes 0.00 / 0.01 / 2.05 / 4.04 / 0.02, with and without Observe, path and payload)",
+    "C05-26": "missed at first (the first-header-byte sweep used one code byte): all 256 x 256 (first byte, code byte) pairs are now parsed and re-encoded",
+    "C06-24": "missed at first (accessor histories ran on a message whose code never changed): histories now set the code byte as one of their operations",
+    "C06-26": "missed at first (damaged texts were at most 8 characters long): long texts (80..2400 bytes) with one byte replaced or cut inside the last character were added",
+    "C08-27": "missed at first (a successor transfer on the same key never had the predecessor's length and options): a third of the same-key successors now copy length, code and options and differ only in content",
+    "C10-28": "missed at first (all requests of an upload had the same overhead): a seventh of the uploads add an option of 12..51 bytes from the second block on; the budget domain is computed for the larger request",
+    "C10-29": "missed at first (C10 ran one transfer per handler): a third of the downloads without a client size are preceded by an abandoned download of the same body with one more response option",
+    "C11-27": "missed at first (hostile requests carried no Size1 / Size2 / ETag / If-Match / Observe options): such options with values of 0..4 bytes were added to the request and reply option choices",
+    "C12-27": "missed at first: a pair of paths with the same text and segment count and the slash moved (['a/b','c'] vs ['a','b/c']) was added",
+    "C12-28": "missed at first (clients asked for every block once): a quarter of the downloads ask for block 0 again with the largest block size as their second request",
+    "C12-29": "missed at first (no transfer used the discovery path): pairs of endpoints on /.well-known/core were added",
+    "C13-26": "missed at first (the construction sweep is ascending and each case was evaluated once): every construction is now repeated and followed by a size-0 call that must fail",
+    "C16-24": "missed at first: the key dictionary got the RFC 6690 / 9176 names (lt, ep, d, gp, et, base, con, ins, exp, count, upper-case variants) and the values RFC 8187 extended values (utf-8'en'...)",
+    "C18-26": "missed at first (documents had at most 3 links): three documents of 260..300 links are now put through every fault position",
+    "C19-27": "missed at first (the previous path was unrelated to the new one): a quarter of the random cases use the new path with a slash added or removed in front as the previous path",
+    "C19-29": "missed at first (cleared option numbers were never adjacent): a run of four adjacent cleared numbers below the last option was added",
+    "C20-29": "missed at first (abandoned uploads in the intervening traffic came from other endpoints): in half of the cases they now come from K's own endpoint on paths of their own",
     "C04-21": "missed at first (code byte 0 was always built as MessageClass::Empty): half of the code-0 messages are now built by hand as Reserved(0); whether their payload is sent is read off the unlimited call as before",
     "C06-21": "missed at first (texts stopped at 9000 bytes): text options now include strings of 65535, 65536 and about 65800 bytes",
     "C07-22": "missed at first (request codes always came from a byte): code bytes 0xFF and 0x00 are now also built by hand as Request(UnKnown) / Response(UnKnown) / Reserved(0)",
